@@ -8,9 +8,7 @@ CONSTANTS
   Toggles <- M3Globals
   Reads <- M3Reads
   OwnKey <- IdealOwnKey
-  MaxLen = 5
-  ProbeInput = "-"
-  ProbeKind = "-"
+  MaxLen = 4
 INVARIANTS
   Fresh
   KeyFunctional
